@@ -350,11 +350,21 @@ def comparison_roots(body):
 def pin_comparisons(ctx, inst, body, table):
     """table: list of (op, lhs predicate, rhs predicate, description). Each row must match exactly one canonical
     comparison of the body (so `<=` vs `<` and swapped operands are distinguished)."""
-    roots = comparison_roots(body)
+    roots = [(nid, r, i, body) for (nid, r, i) in comparison_roots(body)]
+    # a predicate moved into a thin private helper of the same file (an `ensure_*` / `check_*` extraction) is still this function's
+    prog = body.prog
+    for n in body.calls():
+        for t in prog.targets(n.ev):
+            tb = prog.bodies.get(t) if t else None
+            if tb is not None and tb is not body and not tb.is_test and tb.file == body.file and (tb.raw.get("vis") or "Public") != "Public" and len(tb.nodes) <= 200:
+                roots += [(nid, r, i, tb) for (nid, r, i) in comparison_roots(tb)]
     for (op, lp, rp, desc) in table:
-        hits = [nid for (nid, r, _) in roots if r.extra == op and lp(r.a[0]) and rp(r.a[1])]
-        ctx.check(len(hits) == 1, inst, "PIN", body.path, desc + " (found %d)" % len(hits), body.where(hits[0]) if hits else None,
-                  None if len(hits) == 1 else {"comparisons": [r.extra + "(" + r.a[0].show()[:40] + ", " + r.a[1].show()[:40] + ")" for (_, r, _) in roots][:12]})
+        hits = [(nid, hb) for (nid, r, _, hb) in roots if r.extra == op and lp(r.a[0]) and rp(r.a[1])]
+        own = [h for h in hits if h[1] is body]
+        if own:
+            hits = own      # helpers are consulted only for a predicate the function itself no longer contains
+        ctx.check(len(hits) == 1, inst, "PIN", body.path, desc + " (found %d)" % len(hits), hits[0][1].where(hits[0][0]) if hits else None,
+                  None if len(hits) == 1 else {"comparisons": [r.extra + "(" + r.a[0].show()[:40] + ", " + r.a[1].show()[:40] + ")" for (_, r, _, _) in roots][:12]})
 
 
 
